@@ -179,6 +179,16 @@ class G:
                     d = self.default_for(t, base)
                     if d is not None:
                         self.inputs[n][fn] = (t, d)
+        # object defaults (scalars / lists / nested objects, no enum inside): at least one candidate per scenario
+        for n in names:
+            for other in names:
+                if other == n or r.random() < 0.5:
+                    continue
+                lit = self.object_literal(other)
+                if lit is not None and "objDefault" + other not in self.inputs[n]:
+                    self.inputs[n]["objDefault" + other] = (r.choice([other, other + "!"]), lit)
+                    self._bases[n]["objDefault" + other] = other
+                    break
         self.bad = []  # (input, field, class)
         target = names[0]
         if "kw_enum_default" in F:
